@@ -87,6 +87,11 @@ impl HttpClient {
     fn send_request(&self, method: Method, url: &str, headers: Headers, body: Option<Body>,
                     timeout: Duration) -> GenericResult<HttpResponse>
     {
+        #[cfg(vsb_verif)]
+        let verif_url = verif_rewrite_url(url);
+        #[cfg(vsb_verif)]
+        let url = verif_url.as_str();
+
         let client = Client::builder().timeout(timeout).build().map_err(|e| format!(
             "Unable to create HTTP client: {}", e))?;
 
@@ -113,6 +118,26 @@ impl HttpClient {
             headers: response.headers().clone(),
         })
     }
+}
+
+// Verification-only hook (compiled only with RUSTFLAGS='--cfg vsb_verif'): redirects requests to a
+// local provider emulator. VSB_VERIF_URL_MAP is a `;`-separated list of `from=to` URL prefix pairs;
+// the first pair whose `from` is a prefix of the URL wins. Unset variable / no match = URL unchanged.
+#[cfg(vsb_verif)]
+fn verif_rewrite_url(url: &str) -> String {
+    if let Ok(url_map) = std::env::var("VSB_VERIF_URL_MAP") {
+        for pair in url_map.split(';') {
+            if let Some((from, to)) = pair.split_once('=') {
+                let (from, to) = (from.trim(), to.trim());
+                if !from.is_empty() && url.starts_with(from) {
+                    let rewritten = to.to_owned() + &url[from.len()..];
+                    trace!("[vsb_verif] Rewriting {} -> {}", url, rewritten);
+                    return rewritten;
+                }
+            }
+        }
+    }
+    url.to_owned()
 }
 
 #[derive(Debug)]
